@@ -155,7 +155,7 @@ func ruleVD5(c *Ctx) {
 				}
 				// the insertion may live in a small helper called with (graph, from, to)
 				if call, ok := r.In.(*ssa.Call); ok {
-					h := call.Call.StaticCallee()
+					h := calleeOf(&call.Call)
 					if h == nil || !c.InModule(h) || h.Blocks == nil || !mustPassEdges(f, r.Blk, gCyc) {
 						return
 					}
@@ -191,7 +191,7 @@ func ruleVD5(c *Ctx) {
 		isItemOf := func(v ssa.Value, keyCanon string) bool {
 			// v is isEpic(X) with X the value of a comma-ok lookup Tasks[key]
 			c0, _ := callOf(v)
-			if c0 == nil || c0.Call.StaticCallee() != isEpic {
+			if c0 == nil || calleeOf(&c0.Call) != isEpic {
 				return false
 			}
 			ex, ok := resolveEnv(c0.Call.Args[0], curEnv).(*ssa.Extract)
@@ -386,7 +386,7 @@ func ruleVD6(c *Ctx) {
 	applyBlocksOf := func(g *ssa.Function, d int) map[*ssa.BasicBlock]bool {
 		out := map[*ssa.BasicBlock]bool{}
 		for _, call := range callsIn(g) {
-			cal := call.Common().StaticCallee()
+			cal := calleeOf(call.Common())
 			if cal == nil {
 				continue
 			}
@@ -666,7 +666,7 @@ func ruleVD7(c *Ctx) {
 		}
 		// the set handed back by the helper that fills it (closedTaskIDs())
 		if cl, ok := rv.(*ssa.Call); ok {
-			if cal := cl.Call.StaticCallee(); cal != nil && cal.Blocks != nil && c.InModule(cal) && cal.Signature.Results().Len() == 1 {
+			if cal := calleeOf(&cl.Call); cal != nil && cal.Blocks != nil && c.InModule(cal) && cal.Signature.Results().Len() == 1 {
 				rets := returnsOf(cal)
 				for _, r := range rets {
 					if resolve(returnedValue(r, 0)) != resolve(eligibleMap) {
@@ -756,7 +756,7 @@ func ruleVD7(c *Ctx) {
 		}
 		cb := ls.Callback
 		for _, call := range callsIn(cb) {
-			cal := call.Common().StaticCallee()
+			cal := calleeOf(call.Common())
 			if cal == nil || !commit[cal] {
 				continue
 			}
